@@ -72,4 +72,50 @@ PROPS = {
             "merging of repeated identical directory subtrees and the exact bundle error for every malformed bundle are covered by the correspondence only",
         ],
     },
+    "C07": {
+        "level": "proof",
+        "suites": ["hist", "crash"],
+        "columns": ["cache"],
+        "rule": "histories over the full C01 alphabet (edits, reverts, rule edits incl. invalid rules files, builds, goal builds, cleans, tampered and "
+                "deleted targets, deleted cache entries, deleted ruler directory and parts of it), deterministic and failing commands, serial schedule; "
+                "plus every crash point (every file-system mutation incl. torn writes) of builds and cleans from five kinds of prior state. After every "
+                "operation and at every crash point every cache file name is recomputed from its bytes (harness's own SHA-256 + base-62) and the cache "
+                "listing (names and contents) is compared with the model. Distinct by hash of the history; non-trivial = contains a successful build.",
+        "trusted_base": COMMON_TB + [
+            "the LTS step relation (coq/Model/Inv.v) is the vocabulary of actions on shared state; that ruler's threads perform only such actions is shown for the sequential model (build/clean are step sequences, proved) and sampled for the implementation",
+            "directories and path resolution are not modelled (flat path map)",
+        ],
+        "assumptions": [
+            "distinct file writes carry distinct modification times (fine clock) and the clock starts above 0, as the property states",
+            "theorems are about coq/Model/{World,Work,Build,Ops,Inv}.v; tied to src/{cache,blob,work,build,current}.rs by the history and crash suites (R-hist, cache column) ",
+        ],
+    },
+    "C08": {
+        "level": "proof",
+        "suites": ["hist", "crash"],
+        "columns": ["files", "cache"],
+        "rule": "same histories and crash points as C07; monitor: the set of contents at ever-declared target paths and in the cache before each build/clean "
+                "is a subset of the set afterwards (and at every crash point outside a command), and no rename by ruler goes over a target or cache "
+                "file with different content; workspace and cache listings compared with the model. Non-trivial = contains a successful build.",
+        "trusted_base": COMMON_TB + ["hash collision freedom idealised (free symbolic hashes / injectivity hypothesis)"],
+        "assumptions": [
+            "commands write their outputs atomically and deterministically, a failing command writes nothing (the property's own assumption); the theorem covers ruler's own actions at every instant, the whole-build form under deterministic commands is monitored, not proved",
+            "theorems are about coq/Model/Inv.v own_step; tied to the code by the history and crash suites",
+        ],
+    },
+    "C12": {
+        "level": "proof",
+        "suites": ["c12_sorter"],
+        "rule": "exhaustive: every directed graph on up to 3 rules with self loops and on 4 rules without (5 in the thorough tier, every 23rd graph), "
+                "every goal choice, two name labelings, single-target and two-target variants (targets listed out of sorted order, dependents using "
+                "either target); random graphs of 2..40 rules, acyclic and arbitrary, with duplicate targets (across and within rules), "
+                "self-dependence, missing goals, two-target rules. The NodePack or error (with payload) is compared exactly with the model; the monitor "
+                "is an independent checker (plain reachability: expected kind; plan: exactly the in-scope rules once, order, every binding, leaves, "
+                "rule identity) plus invariance under shuffling the input. Distinct by hash of the rule list and goal; non-trivial = at least two rules.",
+        "trusted_base": COMMON_TB + ["HashMap/HashSet/BTreeSet modelled by association lists and a sorted list; Vec::sort by insertion sort (unique result for a total antisymmetric order)"],
+        "assumptions": [
+            "theorems are about coq/Model/TopoSort.v against coq/Model/TopoSpec.v; tied to src/sort.rs by suite c12_sorter (exhaustive on small graphs validates the model against the code; the theorems cover all sizes)",
+            "rule identities in nodes are checked by the monitor against Rule::get_ticket, not compared with the model (see C13)",
+        ],
+    },
 }
